@@ -68,6 +68,9 @@ def run(ctx):
         ctx.guard("watch-list" + tag, wl.run, ctx, crate, crs, tag)
         ctx.guard("restart" + tag, restart_level, ctx, crate, crs, tag)
         ctx.guard("assertions" + tag, c01.assertions, ctx, crate, crs, tag)
+        import c03, c05
+        ctx.guard("antecedents" + tag, c03.antecedents, ctx, crate, crs, tag)     # a learnt clause drops none of its literals
+        ctx.guard("undo-total" + tag, c05.undo_total, ctx, crate, crs, tag)       # trail and map stay in step under undo
 
 
 def conflict_signal(ctx, crate, crs, tag):
